@@ -25,7 +25,7 @@ CHECKS = {
 "C03": dict(
   engine="simhint",
   level_claimed=dict(category="fault_enumeration",
-    text="Deterministic simulation of a dishonest prover: the real compiler output runs on the real cairo-vm with the real hint processor, wrapped by a simulated prover that reports wrong values for chosen hint occurrences. Quick enumerates every single fault (hint occurrence x output cell x lie strategy, including algebraic lies that keep the asserted field equation true and wrap-around solutions) over a catalogue of one function per hinted libfunc/type with boundary inputs and tight gas budgets, plus seeded 2-3-fault sequences; thorough adds seeded random inputs and more multi-fault plans, time-boxed. Oracle: a run with a lie is either rejected by the VM or equals the honest result (value and gas). Sampling of inputs; exhaustive only over the single-fault space of the explored (function, input) pairs.",
+    text="Deterministic simulation of a dishonest prover: the real compiler output runs on the real cairo-vm with the real hint processor, wrapped by a simulated prover that reports wrong values for chosen hint occurrences. Quick enumerates every single fault (hint occurrence x output cell x lie strategy, including algebraic lies that keep the asserted field equation true and wrap-around solutions) over a catalogue of one function per hinted libfunc/type (plus the repository's examples and PRNG-generated bounded-int div_rem / downcast / constrain instantiations, whose CASM depends on the type ranges) with boundary inputs and tight gas budgets, plus seeded 2-3-fault sequences; thorough adds seeded random inputs, 800 generated instantiations and more multi-fault plans, time-boxed. Oracle: a run with a lie is either rejected by the VM or equals the honest result (value and gas). Sampling of inputs; exhaustive only over the single-fault space of the explored (function, input) pairs.",
     design_ref="DESIGN.md section 4"),
   level_note="Trusted: cairo-vm as judge of invalid executions; the honest hint code as reference; entry code in the runner's testing configuration. Later hints are honest relative to the state the lie produced. Functions returning pointers are skipped and listed in the evidence.",
   technique="deterministic simulation with fault injection (seeded/enumerated dishonest-prover hint faults against the real VM)"),
@@ -34,14 +34,14 @@ CHECKS = {
   level_claimed=dict(category="exploration",
     text="Deterministic simulation of the build driver and of the thread pool around the real compiler: each run compiles a corpus project (repo examples crate, tests/bug_samples, starknet cairo_level_tests, three local templates incl. a contract) through the real entry points after a PRNG history prefix of unrelated queries (module diagnostics, lowering, Sierra of other function subsets, queries on dropped snapshots, edit-then-exact-revert, corelib first), under a drawn hash seed (H2 seam) and a simulated worker count in {1,2,3,4,8,16}. Level 1 (plain salsa): the H1 seam hands every rayon task to an executor that runs the tasks of each batch atomically in a PRNG order. Level 2 (salsa built with its shuttle feature): tasks run on a simulated worker pool of shuttle threads and shuttle's seeded random/PCT scheduler decides every interleaving at salsa's synchronisation points (query claims, blocking, interning). Oracle: id-normalised Sierra (debug names and canonical ids), annotations, diagnostics and contract-class JSON byte-identical to the plainest execution. Seeded search over schedules and histories; violations are minimised (prefix ddmin, fewer workers) and replayed in a fresh process.",
     design_ref="DESIGN.md section 5"),
-  level_note="Level 2 interleaves only at salsa's synchronisation points (shuttle models SeqCst); level 1 tasks are atomic. Rayon's work-stealing is replaced by a simpler pool with the same task set. Raw (unreplaced) interned ids are expected to differ and are used as the reach measure; annotation maps keyed by raw ids are re-keyed by debug name before comparison.",
+  level_note="Level 2 interleaves only at salsa's synchronisation points (shuttle models SeqCst); level 1 tasks are atomic. Rayon's work-stealing is replaced by a simpler pool with the same task set. Raw (unreplaced) interned ids are expected to differ and are used as the reach measure; annotation maps keyed by raw ids are re-keyed by debug name before comparison. Two genuine defects of the pinned tree are listed in known_findings.json (cycle diagnostics; SCC representative by intern id) and re-executed from committed replay files on every run.",
   technique="deterministic simulation with fault injection (seeded task-order / shuttle schedules and query-history prefixes on the real salsa database)"),
 "C13": dict(
   engine="simdb",
   level_claimed=dict(category="exploration",
     text="Deterministic simulation of an editor session against one long-lived RootDatabase: PRNG-generated histories (<=12 steps quick, <=30 thorough) of override edits of 25+ kinds (trivia, renames, item/statement insertion, deletion, duplication and moves, syntax-breaking and repairing edits, torn writes), override unset, disk faults under an override (save, torn save, delete, restore), partial queries and queries on snapshots in between, queries cancelled at the k-th executed query, and task-permuted parallel warm-up. After the checked steps the observable (diagnostics with line/column, Sierra with debug-name ids, item-location map through stable pointers) must equal that of a fresh database on the same disk contents and overrides; syntax-tree text/span invariants are checked on sampled nodes. Failures are delta-debugged to a minimal history and confirmed by replay in a fresh process. Seeded search, not exhaustive.",
     design_ref="DESIGN.md section 6"),
-  level_note="Reference model = a fresh compiler instance on the same contents; fresh results memoised by content hash (pure function, see C12). Single-threaded histories. The editor is simulated; project templates are small (3 projects incl. a Starknet contract with plugin-generated code).",
+  level_note="Reference model = a fresh compiler instance on the same contents; fresh results memoised by content hash (pure function, see C12). Single-threaded histories. The editor is simulated; project templates are small (7 projects incl. Starknet contracts/components with plugin-generated code, a non-compiling project and cross-module recursion). Differences explained by the two listed C12 findings (known_findings.json) are printed as KNOWN-FINDING.",
   technique="deterministic simulation with fault injection (seeded edit/query/cancellation/disk-fault histories vs fresh-database reference model)"),
 }
 def main():
